@@ -24,10 +24,6 @@ instance (db : DB Q4) : Decidable (AllocNonneg db) := by unfold AllocNonneg; inf
 instance (db : DB Q4) : Decidable (AllocPos db) := by unfold AllocPos; infer_instance
 instance (db : DB Q4) (rp rc : Nat) : Decidable (OverCommitted db rp rc) := by
   unfold OverCommitted; infer_instance
-instance (op : Op Q4) : Decidable op.AmountsNonneg := by unfold Op.AmountsNonneg; infer_instance
-instance (invs : List (RpInvReq Q4)) : Decidable (ReshapeWF invs) := by unfold ReshapeWF; infer_instance
-instance (op : Op Q4) : Decidable op.WF := by
-  cases op <;> (unfold Op.WF; infer_instance)
 
 namespace C01Ex
 
